@@ -52,7 +52,29 @@ def record(rng, n, shape=None, amp=None):
         x = env * rng.standard_normal(n)
     else:
         raise ValueError(shape)
-    return np.asarray(x, dtype=float) * amp, shape
+    x = np.asarray(x, dtype=float) * amp
+    if rng.integers(4) == 0:
+        # the same samples handed over as a VIEW: a column of a table, every second element of a longer buffer, a negative stride
+        x = as_view(rng, x)
+        shape += " (strided view)"
+    return x, shape
+
+
+def as_view(rng, x):
+    """x (1-D float64) as a writeable non-contiguous view with the same values"""
+    x = np.asarray(x, dtype=float)
+    k = int(rng.integers(3))
+    if k == 0:
+        t = np.empty((len(x), 3))
+        t[:, 0] = x[::-1]
+        t[:, 2] = -2.0 * x + 1.0
+        t[:, 1] = x
+        return t[:, 1]
+    if k == 1:
+        b = np.full(2 * len(x), 7.5)
+        b[::2] = x
+        return b[::2]
+    return np.ascontiguousarray(x[::-1])[::-1]
 
 
 def length(rng, lo=2, hi=5000):
